@@ -7,7 +7,7 @@ Local Open Scope Z_scope.
 Definition err_tag (e : err) : obs :=
   OTag (match e with
         | EError => "Error" | EValueError => "ValueError" | ETypeError => "TypeError"
-        | EOverflowError => "OverflowError" | EException => "Exception"
+        | EOverflowError => "OverflowError" | EException => "Exception" | EAttributeError => "AttributeError"
         end)%string.
 
 (* doubles are observed as (odd mantissa, exponent); the sign of zero is not observed *)
@@ -60,14 +60,19 @@ Definition run_case (i : input) : obs :=
    (1) defining two options with the same normalised name is refused;
    (2) an option that no command line / config file mentions keeps its default;
    (3) a command line that names an undefined option before its options end
-       (first non-dash argument or "--") raises. *)
+       (first non-dash argument or "--") raises;
+   (4) values of the wrong type are rejected, element-wise: a config file / a run of
+       attribute assignments that completed without raising bound every defined
+       option only to None, a value of its type, or (multiple) a list all of whose
+       elements are None or of its type; config strings go through parse instead;
+       assigning to an undefined option raises. *)
 Definition key_of_arg (a : text) : text :=
   normalize (fst (fst (partition_at 61 (lstrip (fun c => (c =? 45)%N) a)))).
 
 Definition mentions (k : text) (s : source) : bool :=
   match s with
   | SCmd argv => existsb (fun a => text_eqb (key_of_arg a) k) argv
-  | SCfg bs => existsb (fun b => text_eqb (normalize (fst b)) k) bs
+  | SCfg bs | SSet bs => existsb (fun b => text_eqb (normalize (fst b)) k) bs
   end.
 Definition mentioned (k : text) (ss : list source) : bool := existsb (mentions k) ss.
 
@@ -100,6 +105,42 @@ Fixpoint defaults_kept (ss : list source) (defs : list optdef) (vals : list obs)
   | _, _ => false
   end.
 
+Definition eff_ty (d : optdef) : ty :=
+  match d_ty d with
+  | Some t => t
+  | None => if negb (d_multiple d) && negb (is_none (d_default d))
+            then type_of_value (d_default d) else TStr
+  end.
+Definition acceptable (t : ty) (multiple : bool) (v : value) : bool :=
+  if multiple then match v with
+                   | VList l => forallb (fun x => is_none x || inst t x) l
+                   | _ => false
+                   end
+  else is_none v || inst t v.
+Fixpoint find_def (k : text) (defs : list optdef) : option optdef :=
+  match defs with
+  | [] => None
+  | d :: defs' => if text_eqb (normalize (d_name d)) k then Some d else find_def k defs'
+  end.
+(* [cfg]: config-file semantics (strings are parsed, unknown names ignored) *)
+Definition binding_ok (defs : list optdef) (cfg : bool) (b : text * value) : bool :=
+  match find_def (normalize (fst b)) defs with
+  | None => cfg
+  | Some d => (cfg && is_str (snd b)) || acceptable (eff_ty d) (d_multiple d) (snd b)
+  end.
+Definition source_ok (defs : list optdef) (s : source) : bool :=
+  match s with
+  | SCmd _ => true
+  | SCfg bs => forallb (binding_ok defs true) bs
+  | SSet bs => forallb (binding_ok defs false) bs
+  end.
+Fixpoint accepted_ok (defs : list optdef) (ss : list source) (outs : list obs) : bool :=
+  match ss, outs with
+  | s :: ss', o :: outs' =>
+      (match o with OTag _ => true | _ => source_ok defs s end) && accepted_ok defs ss' outs'
+  | _, _ => true
+  end.
+
 Definition check_case (i : input) (o : obs) : bool :=
   let '(defs, srcs) := i in
   let keys := map (fun d => normalize (d_name d)) defs in
@@ -108,6 +149,7 @@ Definition check_case (i : input) (o : obs) : bool :=
     match o with
     | OList [OList outs; OList vals] =>
         defaults_kept srcs defs vals
+        && accepted_ok defs srcs outs
         && match srcs with
            | SCmd (_ :: args) :: _ =>
                if unknown_before_end keys args
